@@ -67,11 +67,7 @@ func VerifC18_FailClosed() {
 		hc.Backends().AcquireBackend("default", "authsvc", "80")
 	}
 
-	c := &updater{
-		haproxy: hc,
-		logger:  logger,
-		options: &convtypes.ConverterOptions{DynamicConfig: &convtypes.DynamicConfig{}, Logger: logger},
-	}
+	c := NewUpdater(hc, &convtypes.ConverterOptions{DynamicConfig: &convtypes.DynamicConfig{}, Logger: logger}).(*updater)
 	src := &Source{Namespace: "default", Name: "ing1", Type: convtypes.ResourceIngress}
 	defaults := map[string]string{
 		ingtypes.BackAuthExternalPlacement: "backend",
